@@ -14,6 +14,7 @@ import CtyModel.Lemmas.d03bLess
 import CtyModel.Lemmas.d03bCaps
 import CtyModel.Lemmas.d03bEncTop
 import CtyModel.Lemmas.d03bEqFull
+import CtyModel.Lemmas.d03bConv
 namespace CtyModel
 namespace C03
 
@@ -1042,6 +1043,17 @@ theorem hash_text_injective_setfree (t : Ty) (a b : Payload) (hw : t.wf = true) 
     (h : Bytes) (ha : hashBytes ⟨t, a⟩ = .ok h) (hb : hashBytes ⟨t, b⟩ = .ok h) :
     Value.sameShape ⟨t, a⟩ ⟨t, b⟩ = true :=
   D03b.sameShape_of_hashBytes_eq hw hsf wa wb na nb ha hb
+
+/-- **…and exactly so**: on a set-free type two well-formed values have the same hash
+text IF AND ONLY IF they are `sameShape` — the relation the harness classifies hash
+ties with is the kernel of `makeSetHashBytes`, no coarser and no finer (the "only if"
+needs the number texts to be over `0-9.e+-Inf`; the "if" needs nothing). -/
+theorem hash_text_eq_iff_sameShape (t : Ty) (a b : Payload) (hw : t.wf = true) (hsf : t.setFree = true)
+    (wa : a.shaped t = true) (wb : b.shaped t = true) (na : a.numTextsOk = true) (nb : b.numTextsOk = true)
+    (h : Bytes) (ha : hashBytes ⟨t, a⟩ = .ok h) :
+    hashBytes ⟨t, b⟩ = .ok h ↔ Value.sameShape ⟨t, a⟩ ⟨t, b⟩ = true :=
+  ⟨fun hb => hash_text_injective_setfree t a b hw hsf wa wb na nb h ha hb,
+    fun hs => by rw [← D03b.hashBytes_of_sameShape hw hsf wa wb hs]; exact ha⟩
 
 /-- …contrapositive: values that are not `sameShape` never share a hash text (they
 may still share the 32-bit `Hash`; `Equivalent` then tells them apart). -/
